@@ -569,6 +569,17 @@ func (E *Engine) loopEnter(st *State, li *loopInfo, from *ssa.BasicBlock) bool {
 	}
 	st.loopLog[li.Ordinal] = len(st.log)
 	st.ghost["curloop"] = fmt.Sprint(li.Ordinal)
+	// snapshot of the locals and the heap at the head of this iteration: athead(e) in `each`
+	if st.headEnv == nil {
+		st.headEnv = map[int]map[string]*Val{}
+		st.headHeap = map[int]map[string]string{}
+	}
+	he := make(map[string]*Val, len(st.env))
+	for k, v := range st.env {
+		he[k] = v
+	}
+	st.headEnv[li.Ordinal] = he
+	st.headHeap[li.Ordinal] = copyHeap(st.heap)
 	if c.coveredLoopN == nil {
 		c.coveredLoopN = map[int]int{}
 	}
@@ -708,6 +719,23 @@ func (E *Engine) gotoBlock(st *State, to, from *ssa.BasicBlock) {
 		}
 		if to == li.Header {
 			return
+		}
+	} else if from != nil && E.cur != nil {
+		// `exit` clauses of every loop this edge leaves
+		var lis []*loopInfo
+		for _, li := range E.cur.loopOf {
+			if li.Spec != nil && len(li.Spec.Exit) > 0 && li.Body[from] && !li.Body[to] {
+				lis = append(lis, li)
+			}
+		}
+		sort.Slice(lis, func(i, j int) bool { return lis[i].Ordinal < lis[j].Ordinal })
+		for _, li := range lis {
+			for i, cl := range li.Spec.Exit {
+				ev := E.cenvFor(st, E.cur, cl.Ctx)
+				ev.loopMode = true
+				ev.goal = true
+				E.oblige(st, "loop-exit", fmt.Sprintf("loop%d.%d", li.Ordinal, i), ev.evalBool(cl.Expr), cl.Text, E.blockPos(li.Header), cl)
+			}
 		}
 	}
 	E.runBlock(st, to, from)
